@@ -83,3 +83,35 @@ def check(rep, model, tier):
     rep.rule('EFF-ROVIEW', 'no write into a read-only array view of a pandas object on the recompute path')
     common.roview(rep, model, ['recompute_edges', 'recompute_edge', 'detect_bursts_cycles'])
     rep.floor('edge definitions compared', n, 14)
+    obj_front_end(rep, model)
+
+
+def obj_front_end(rep, model):
+    """the object front end applies the same rule to the fitted table with thresholds lowered by r -- by r on every call, not cumulatively"""
+    from . import c14, common
+    rep.rule('OBJ-RECOMPUTE', 'Bycycle.recompute_edges(r) stores recompute_edges(fitted table, thresholds - r) where reduce_thresholds builds a new dictionary from the stored '
+                              'thresholds; neither method (nor BycycleGroup.recompute_edges) writes to the stored thresholds, so a repeated call or the next group member is '
+                              'lowered by r again, not by 2r (shared with C14 REDUCE / RECOMPUTE / EFF-SELF)')
+    before = len(rep.instances)
+    c14.reduce_and_recompute(rep, model)
+    for i in rep.instances[before:]:
+        i['rule'] = 'OBJ-RECOMPUTE'
+        if i.get('key'):
+            i['key'] = 'OBJ-RECOMPUTE@' + i['instance']
+    summ, det, rounds, ro = common.effects(model)
+    for cls, name, own in ((c14.BY, 'recompute_edges', {'df_features'}), (c14.GRP, 'recompute_edges', {'df_features', 'models'}), (c14.BASE, 'reduce_thresholds', set())):
+        q = f'{cls}.{name}'
+        f = model.funcs.get(q)
+        if f is None:
+            rep.unresolved('OBJ-RECOMPUTE', q, '-', 'method not found')
+            continue
+        short = cls.rsplit('.', 1)[1]
+        bad = sorted(x for x in summ[q]['selfmut'] if x not in own)
+        assigned = sorted(w[1] for (w, *_r) in det[q].mut if w[0] == 'SelfAssign' and w[1] not in own)
+        site = f'{f.path}:{f.node.lineno} {short}.{name}'
+        if bad or assigned:
+            hits = sorted((ln, c, via) for (w, ln, c, via) in det[q].mut if w[0] in ('Self', 'SelfAssign') and w[1] in bad + assigned)
+            rep.violation('OBJ-RECOMPUTE', f'{short}.{name}:settings stable', site, expected=f'writes only its results {sorted(own)}',
+                          found=f'writes self.{bad + assigned}: ' + '; '.join(c for _, c, _v in hits[:3]))
+        else:
+            rep.ok('OBJ-RECOMPUTE', f'{short}.{name}:settings stable', site, found='stored thresholds / options are not written')
